@@ -176,6 +176,11 @@ void bn_div_dig(bn_t c, const bn_t a, dig_t b) {
 
 		bn_copy(q, a);
 		bn_div1_low(q->dp, &r, (const dig_t *)a->dp, b, a->used);
+		bn_trim(q);
+		/* Round towards minus infinity, as bn_div() does. */
+		if (bn_sign(a) == RLC_NEG && r != 0) {
+			bn_sub_dig(q, q, 1);
+		}
 		if (c != NULL) {
 			bn_copy(c, q);
 		}
@@ -214,17 +219,19 @@ void bn_div_rem_dig(bn_t c, dig_t *d, const bn_t a, dig_t b) {
 
 		bn_copy(q, a);
 		bn_div1_low(q->dp, &r, (const dig_t *)a->dp, b, a->used);
+		bn_trim(q);
+		/* Round towards minus infinity, as bn_div_rem() does. */
+		if (bn_sign(a) == RLC_NEG && r != 0) {
+			bn_sub_dig(q, q, 1);
+			r = b - r;
+		}
 
 		if (c != NULL) {
 			bn_copy(c, q);
 		}
 
 		if (d != NULL) {
-			if (bn_sign(a) == RLC_NEG) {
-				*d = b - r;
-			} else {
-				*d = r;
-			}
+			*d = r;
 		}
 	}
 	RLC_CATCH_ANY {
